@@ -4,7 +4,7 @@
                  (at+1 = 0: plain operation; otherwise operation j runs at interleaving point `at` of the host operation) [ VL [VN ..] flat_obs ... ] ]
    flat_obs  =  err n fired |sess| sess.. |reg| (c cid auth stale).. |idx| (x c).. |closed| closed.. |tun| (c t).. |tmap| (t c)..
                 total control tunnel |la| la..      (every collection sorted by its first component) *)
-From TX Require Import Base.Val Model.Registry Model.RegistryMicro.
+From TX Require Import Base.Val Model.Registry Model.RegistryMicro Model.RegistryCloud.
 Open Scope N_scope.
 
 Fixpoint insert_by {A} (key : A -> N) (x : A) (l : list A) : list A :=
@@ -54,6 +54,7 @@ Definition dec_op_at (off : nat) (v : tval) : op :=
   | 11 => ToTunnel a b
   | 12 => BreakWrites a
   | 13 => ReReg a b
+  | 15 => RegClaim a b
   | _ => Tick 0
   end.
 Definition dec_op (v : tval) : op := dec_op_at 0 v.
@@ -63,9 +64,24 @@ Definition dec_inj (v : tval) : option (N * op) :=
 Definition dec_variant (v : tval) : variant := if vn v =? 0 then Pinned else if vn v =? 2 then Head else Current.
 Definition dec_cfg (v : tval) : cfg := {| maxConn := vn (vnth 0 v); maxCtl := vn (vnth 1 v); hbTimeout := vn (vnth 2 v) |}.
 
+(* cloud-control calls of every plain (not interleaved) step, predicted from the state BEFORE it; the 4th configuration entry
+   says whether a cloud-control double is installed.  Appended to the flat observation as |calls| (method client conn).. *)
+Definition flat_calls (on : bool) (k : cfg) (pre : st) (oi : op * option (N * op)) : list N :=
+  match snd oi with
+  | Some _ => [0]
+  | None =>
+      if on then let cs := sort_by (fun e => snd e) (step_calls k pre (fst oi)) in
+                 lenN cs :: flat_map (fun e => [fst (fst e); snd (fst e); snd e]) cs
+      else [0]
+  end.
+
 Definition model_obs (v : tval) : list (list N) :=
   let k := dec_cfg (vnth 1 v) in
-  map (flat_state k) (trace_inj (dec_variant (vnth 0 v)) k init (map (fun o => (dec_op o, dec_inj o)) (vl (vnth 2 v)))).
+  let on := negb (vn (vnth 3 (vnth 1 v)) =? 0) in
+  let ops := map (fun o => (dec_op o, dec_inj o)) (vl (vnth 2 v)) in
+  let tr := trace_inj (dec_variant (vnth 0 v)) k init ops in
+  let pres := init :: map (fun r => fst (fst r)) tr in
+  map (fun x => flat_state k (fst (fst x)) ++ flat_calls on k (snd (fst x)) (snd x)) (combine (combine tr pres) ops).
 
 (* the first |obs| steps are compared (the driver truncates a sequence after a recorded defect of the tree shows).
    Fifth component 1 = lock-contention case: the operations of the last two positions ran concurrently on the real code, queued on
